@@ -69,7 +69,7 @@ def _run_mc(chk, sc, cfg):
     write_cfg(cfgp, constants=_gen_constants(cfg["mc"]["MaxDepth"], cfg["mc"]["MaxActive"],
                                              cfg["mc"]["leaves"], cfg["mc"]["ints"], False),
               invariants=["BaseWellTyped", "ViolationIllTyped", "ViolationSingle", "DepthBounded"])
-    res = run_tlc(os.path.join(AREA, "TypingMC.tla"), cfgp, lib_areas=("typing",), workers=8,
+    res = run_tlc(os.path.join(AREA, "TypingMC.tla"), cfgp, lib_areas=("typing",), workers=min(4, typing_pool.jobs_limit()),
                   coverage=True, timeout=cfg["mc_timeout"], metadir=sc.sub("meta-mc"))
     chk.add_tlc(res, part="mc")
     if res.invariant_violated:
@@ -96,22 +96,21 @@ def _generate_catalogue(chk, sc):
     return _dedupe(res.printed_json())
 
 
-def _generate_sim(chk, sc, cfg, seed):
+def _generate_sim_one(chk, sc, cfg, seed, k):
     s = cfg["sim"]
-    cfgp = sc.file("gen.cfg")
+    cfgp = sc.file("gen%d.cfg" % k)
     write_cfg(cfgp, constants=_gen_constants(s["depth"], s["active"], ALL_LEAVES, [0, 1, 2, 3, 8], True))
+    res = run_tlc(os.path.join(AREA, "TypingGen.tla"), cfgp, lib_areas=("typing",), workers=1,
+                  simulate=s["walks"], depth=400, seed=seed * 1000 + k + 1, timeout=1500,
+                  metadir=sc.sub("meta-gen%d" % k), heap="2g")
+    chk.add_tlc(res, part="sim-gen")
+    if res.rc != 0:
+        raise MachineryError("generator failed:\n" + res.error_trace_tail(40))
+    return res.printed_json()
 
-    def job(k):
-        return lambda: run_tlc(os.path.join(AREA, "TypingGen.tla"), cfgp, lib_areas=("typing",),
-                               workers=1, simulate=s["walks"], depth=400, seed=seed * 1000 + k + 1,
-                               timeout=1500, metadir=sc.sub("meta-gen%d" % k), heap="2g")
-    cases = []
-    for res in run_parallel([job(k) for k in range(s["procs"])], nproc=s["procs"]):
-        chk.add_tlc(res, part="sim-gen")
-        if res.rc != 0:
-            raise MachineryError("generator failed:\n" + res.error_trace_tail(40))
-        cases.extend(res.printed_json())
-    cases = _dedupe(cases)
+
+def _select_sim(cases, cfg, seed):
+    s = cfg["sim"]
     bases = [c for c in cases if c["kind"] == "base"]
     viols = [c for c in cases if c["kind"] == "viol"]
     if len(viols) > s["max_viol"]:
@@ -170,7 +169,7 @@ def _decide(chk, sc, records, part, nshards=8):
                                env={"CASES_FILE": files[k]}, timeout=1500,
                                metadir=sc.sub("meta-%s-chk%d" % (part, k)), heap="3g")
     verdicts, total, masked = [], 0, 0
-    for k, res in enumerate(run_parallel([job(k) for k in range(len(files))], nproc=len(files))):
+    for k, res in enumerate(run_parallel([job(k) for k in range(len(files))], nproc=min(len(files), typing_pool.jobs_limit()))):
         chk.add_tlc(res, part=part + "-check")
         if not res.clean:
             raise MachineryError("TypingCheck failed:\n" + res.error_trace_tail(40))
@@ -237,6 +236,7 @@ def _selftest(chk, sc, records):
 
 def run(chk, only=None):
     cfg = TIERS[chk.tier]
+    typing_pool.warm()
     parts = only or {"mc", "catalogue", "sim", "selftest"}
     chk.rule = ("TLC builds programs by Fill/Seal actions (type-directed, operator depth <= 3, up to 3 of 14 "
                 "position classes generated, rest default) and applies one catalogue rule violation at one node; "
@@ -259,13 +259,25 @@ def run(chk, only=None):
         phase[name] = round(phase.get(name, 0) + time.time() - t0, 1)
         return r
     with Scratch("c13") as sc:
+        # stage 1: model checking and both generators side by side (each TLC run is single-threaded
+        # except the model check)
+        jobs, names = [], []
         if "mc" in parts:
-            timed("mc", _run_mc, chk, sc, cfg)
-        records = []
+            jobs.append(lambda: _run_mc(chk, sc, cfg)); names.append("mc")
         if "catalogue" in parts:
-            cat = timed("catalogue-gen", _generate_catalogue, chk, sc)
-            recs = timed("catalogue-compile", _replay, cat)
-            verdicts, total, masked = timed("catalogue-check", _decide, chk, sc, recs, "catalogue")
+            jobs.append(lambda: _generate_catalogue(chk, sc)); names.append("catalogue")
+        if "sim" in parts:
+            for k in range(cfg["sim"]["procs"]):
+                jobs.append((lambda kk: (lambda: _generate_sim_one(chk, sc, cfg, chk.seed, kk)))(k)); names.append("sim")
+        t0 = time.time()
+        outs = run_parallel(jobs, nproc=typing_pool.jobs_limit())
+        phase["tlc-generation+mc"] = round(time.time() - t0, 1)
+        cat = [c for n, o in zip(names, outs) if n == "catalogue" for c in o]
+        simcases = _select_sim(_dedupe([c for n, o in zip(names, outs) if n == "sim" for c in o]), cfg, chk.seed)
+        records = []
+        if cat:
+            recs = timed("compile", _replay, cat)
+            verdicts, total, masked = timed("check", _decide, chk, sc, recs, "catalogue")
             _report(chk, recs, verdicts)
             chk.traces += total
             chk.extra["catalogue_cases"] = total
@@ -275,10 +287,10 @@ def run(chk, only=None):
                     chk.note_nontrivial("%s@%s" % (c["viol"]["rule"], c["viol"]["slot"]))
             records += recs
             chk.exhaustive = True if parts == {"catalogue"} else None
-        if "sim" in parts:
-            cases = timed("sim-gen", _generate_sim, chk, sc, cfg, chk.seed)
-            recs = timed("sim-compile", _replay, cases)
-            verdicts, total, masked = timed("sim-check", _decide, chk, sc, recs, "sim")
+        if simcases:
+            cases = simcases
+            recs = timed("compile", _replay, cases)
+            verdicts, total, masked = timed("check", _decide, chk, sc, recs, "sim")
             _report(chk, recs, verdicts)
             chk.traces += total
             nb = sum(1 for c in cases if c["kind"] == "base")
